@@ -4,9 +4,28 @@ stand-ins decide which property; native adapters for replays."""
 CONTRACT_MODULES = [
     'contracts.errors',
     'contracts.substitution',
+    'contracts.datatypes',
+    'contracts.cfgparser',
 ]
 
 PROPS = {
+    'C03': {
+        'functions': ['cfgparser.ZConfigParser.__init__', 'cfgparser.ZConfigParser._normalize_case',
+                      'cfgparser.ZConfigParser.error', 'cfgparser.ZConfigParser.nextline',
+                      'cfgparser.ZConfigParser.replace', 'cfgparser.ZConfigParser.handle_key_value',
+                      'cfgparser.ZConfigParser.handle_directive', 'cfgparser.ZConfigParser.handle_define',
+                      'cfgparser.ZConfigParser.handle_import', 'cfgparser.ZConfigParser.handle_include'],
+        'standin': True,
+    },
+    'C09': {
+        'functions': ['datatypes.RegularExpressionConversion.__call__', 'datatypes.BasicKeyConversion.__call__',
+                      'datatypes.asBoolean', 'datatypes.integer', 'datatypes.RangeCheckedConversion.__call__',
+                      'datatypes.SuffixMultiplier.__call__', 'datatypes.IpaddrOrHostname.__call__'],
+        'rx': ['rx:datatypes.basic-key', 'rx:datatypes.identifier', 'rx:datatypes.dotted-name',
+               'rx:datatypes.dotted-suffix', 'rx:datatypes.ipaddr-or-hostname'],
+        'bind': ['bind:datatypes'],
+        'standin': True,
+    },
     'C04': {
         'functions': ['substitution._split', 'substitution.substitute', 'substitution.isname'],
         'rx': ['rx:substitution._name_re'],
